@@ -72,6 +72,10 @@ func (c *Ctx) boundRole(fn *ssa.Function, v ssa.Value) (who, which string) {
 				}
 			}
 			if tag != "min" && tag != "max" {
+				// a field of a struct of bounds that the callers built (see the Field case)
+				if srcs, ok := core.FieldSourcesOf(fa.X, fa.Field); ok {
+					return c.rolesOf(srcs)
+				}
 				return "", ""
 			}
 			base := c.M.ValPath(fa.X)
@@ -93,8 +97,31 @@ func (c *Ctx) boundRole(fn *ssa.Function, v ssa.Value) (who, which string) {
 		if ta, ok := x.Tuple.(*ssa.TypeAssert); ok && x.Index == 0 {
 			return c.boundRole(fn, ta)
 		}
+	case *ssa.Field:
+		// a bound that travels in a struct of bounds (built by the caller, compared by a helper): what was put into the field
+		srcs, ok := core.FieldSources(x)
+		if !ok {
+			return "", ""
+		}
+		return c.rolesOf(srcs)
 	}
 	return "", ""
+}
+
+// rolesOf: the one role all the values have.
+func (c *Ctx) rolesOf(srcs []ssa.Value) (who, which string) {
+	for i, src := range srcs {
+		in, isInstr := src.(ssa.Instruction)
+		if !isInstr {
+			return "", ""
+		}
+		w1, w2 := c.boundRole(in.Parent(), src)
+		if w1 == "" || (i > 0 && (w1 != who || w2 != which)) {
+			return "", ""
+		}
+		who, which = w1, w2
+	}
+	return who, which
 }
 
 // reflectMethodProbe: v derives from reflect.Value.MethodByName(<const>).Call(...)[0].Interface(): returns the constant.
@@ -584,7 +611,8 @@ func (c *Ctx) ruleBoundsConsulted(rule string) {
 					}
 					if call, ok := in.(*ssa.Call); ok && !call.Call.IsInvoke() {
 						for _, callee := range c.M.Callees(&call.Call) {
-							if strings.Contains(strings.ToLower(c.M.Key(callee)), "compatib") {
+							if strings.Contains(strings.ToLower(c.M.Key(callee)), "compatib") || len(core.PlainSites(callee)) > 0 {
+								// (the comparison may sit in an unexported helper that is handed the bounds)
 								scan(callee, d+1)
 							}
 						}
@@ -816,7 +844,7 @@ func (c *Ctx) ruleCrossKindBounds(rule string) {
 				continue
 			}
 			other := ""
-			for _, cond := range core.CondsAt(ret.Block()) {
+			for _, cond := range ret.Conds() {
 				bin, ok := cond.V.(*ssa.BinOp)
 				if !ok || bin.Op != token.EQL || !cond.True {
 					continue
@@ -840,7 +868,7 @@ func (c *Ctx) ruleCrossKindBounds(rule string) {
 			// a producer that offers nothing at all (len(values) == 0 of the list that the consulting loop walks) cannot
 			// offer anything outside the bounds
 			offersNothing := false
-			for _, cond := range core.CondsAt(ret.Block()) {
+			for _, cond := range ret.Conds() {
 				bin, ok := cond.V.(*ssa.BinOp)
 				if !ok || bin.Op != token.EQL || !cond.True {
 					continue
@@ -867,7 +895,7 @@ func (c *Ctx) ruleCrossKindBounds(rule string) {
 			}
 			if offersNothing {
 				c.R.Ok(rule, k, c.M.InstrPos(ret), "acceptance of a producer of another kind", "taken only where the producer offers no value at all (the list of offered values, which the consulting loop walks, is empty)")
-			} else if hold[ret.Block()] || gen(ret.Block()) {
+			} else if hold[ret.Key()] || gen(ret.Block()) {
 				c.R.Ok(rule, k, c.M.InstrPos(ret), "acceptance of a producer of another kind", "on every path a bound of the receiver was read, or a method of the receiver that reads them was called")
 			} else {
 				c.R.Bad(rule, k, c.M.InstrPos(ret), "a producer of another kind is accepted without a look at the own bounds",
